@@ -1,4 +1,5 @@
 import MidnightZK.Model.C01.Schedule
+import MidnightZK.Model.C01.Quotient
 /-!
 # C01 — honest proofs verify for every circuit shape and proving configuration
 
@@ -191,5 +192,95 @@ theorem schedule_agree (sh : Shape) (cfg : Cfg) (h : WF sh cfg) :
 /-- Non-vacuity: a shape with two phases, a lookup, a trash argument, two permutation sets. -/
 example : WF ⟨[0, 0, 1], [0], [(0, 0), (1, 0), (2, 1)], [(0, 0), (1, 0)], [(0, 0)], 1, 1, 5, 5, 6, 4⟩
     ⟨2, 1, [[2], [3]]⟩ := ⟨by decide, by decide, by decide⟩
+
+/-! ### quotient polynomial: split, blind, recombine -/
+
+section Quotient
+open Lean.Grind
+variable {R : Type} [CommRing R]
+
+private theorem evalPoly_append_single (L : List R) (t x : R) :
+    evalPoly (L ++ [t]) x = evalPoly L x + x ^ L.length * t := by
+  induction L with
+  | nil => simp [evalPoly]; grind
+  | cons a r ih =>
+    simp only [evalPoly, List.cons_append, List.foldr_cons, List.length_cons] at ih ⊢
+    rw [ih]; grind
+
+private theorem evalPoly_subHead (M : List R) (t x : R) (h : M ≠ []) :
+    evalPoly (subHead t M) x = evalPoly M x - t := by
+  cases M with
+  | nil => exact absurd rfl h
+  | cons a r => simp only [subHead, evalPoly, List.foldr_cons]; grind
+
+private theorem evalPoly_append (A B : List R) (x : R) :
+    evalPoly (A ++ B) x = evalPoly A x + x ^ A.length * evalPoly B x := by
+  induction A with
+  | nil => simp [evalPoly]; grind
+  | cons a r ih =>
+    simp only [evalPoly, List.cons_append, List.foldr_cons, List.length_cons] at ih ⊢
+    rw [ih]; grind
+
+/-- **Blinding the quotient limbs does not change the recombined quotient**: for every list
+of limbs of length `m = n − 1 ≥ 1`, every blinding vector `ts` and every evaluation point,
+`Σ x^(m·i) L'ᵢ(x) = Σ x^(m·i) Lᵢ(x)`. (Each `tᵢ` enters as `+tᵢ·X^m` in limb `i−1` and as
+`−tᵢ` in limb `i`.) -/
+theorem quotient_blind_recombine (x : R) (m : Nat) (hm : 1 ≤ m) :
+    ∀ (limbs : List (List R)) (ts : List R), (∀ L ∈ limbs, L.length = m) →
+      recombine x m (blind ts limbs) = recombine x m limbs
+  | [], ts, _ => by cases ts <;> simp [blind]
+  | [L], ts, _ => by
+    cases ts <;> simp only [blind, recombine] <;> rw [evalPoly_append_single] <;> grind
+  | L :: M :: rest, [], h => by
+    have ih := quotient_blind_recombine x m hm (M :: rest) [] (fun K hK => h K (by simp [hK]))
+    simp only [blind, recombine] at ih ⊢
+    rw [evalPoly_append_single, ih]; grind
+  | L :: M :: rest, t :: ts, h => by
+    have hL : L.length = m := h L (by simp)
+    have hM : M.length = m := h M (by simp)
+    have hMne : M ≠ [] := by intro e; rw [e] at hM; simp at hM; omega
+    have hlen : ∀ K ∈ subHead t M :: rest, K.length = m := by
+      intro K hK
+      simp only [List.mem_cons] at hK
+      rcases hK with rfl | hK
+      · cases M with
+        | nil => exact absurd rfl hMne
+        | cons a r => simpa [subHead] using hM
+      · exact h K (by simp [hK])
+    have ih := quotient_blind_recombine x m hm (subHead t M :: rest) ts hlen
+    simp only [blind, recombine] at ih ⊢
+    rw [evalPoly_append_single, ih, evalPoly_subHead M t x hMne, hL]; grind
+
+/-- **Splitting and recombining is the identity on evaluations**: if the (truncated) quotient
+has `m·q` coefficients, `Σ_j x^(m·j) h_j(x) = h(x)` where `h_j` are the `chunks_exact(m)`
+pieces — what the verifier relies on when it opens the chopped commitment at `x`. -/
+theorem chunks_recombine (x : R) (m : Nat) (hm : 1 ≤ m) :
+    ∀ (q fuel : Nat) (h : List R), h.length = m * q → q ≤ fuel →
+      recombine x m (chunksExact m fuel h) = evalPoly h x
+  | 0, fuel, h, hl, _ => by
+    have : h = [] := by simpa using hl
+    subst this
+    cases fuel with
+    | zero => simp [chunksExact, recombine, evalPoly]
+    | succ k =>
+      have : (m = 0 ∨ 0 < m) := Or.inr (by omega)
+      simp [chunksExact, recombine, evalPoly, this]
+  | q + 1, 0, h, _, hf => by omega
+  | q + 1, fuel + 1, h, hl, hf => by
+    have hge : ¬ (m = 0 ∨ h.length < m) := by
+      rw [hl, Nat.mul_succ]; omega
+    simp only [chunksExact, hge, if_false, recombine]
+    have hdrop : (h.drop m).length = m * q := by
+      rw [List.length_drop, hl, Nat.mul_succ]; omega
+    rw [chunks_recombine x m hm q fuel (h.drop m) hdrop (by omega)]
+    have htake : (h.take m).length = m := by
+      rw [List.length_take, hl, Nat.mul_succ]; omega
+    conv => rhs; rw [← List.take_append_drop m h, evalPoly_append, htake]
+
+/-- Non-vacuity over `Int`: two limbs of length 2, blinded with `t = 7`, at `x = 3`. -/
+example : recombine (3 : Int) 2 (blind [7] [[1, 2], [4, 5]]) = recombine 3 2 [[1, 2], [4, 5]] :=
+  quotient_blind_recombine 3 2 (by decide) _ _ (by simp)
+
+end Quotient
 
 end MidnightZK.C01
